@@ -46,7 +46,11 @@ impl Family for C17Family {
     fn generate(&self, master: u64, index: u64, _tier: Tier) -> Scenario {
         let mut r = Rng::new(run_seed(master, "C17", index));
         let faulty = index % 2 == 1;
-        let backend = if r.chance(1, 3) { Backend::Memory } else { Backend::Ref };
+        let backend = match r.below(6) {
+            0 | 1 => Backend::Memory,
+            2 => Backend::Slot,
+            _ => Backend::Ref,
+        };
         let mut c = ceremony(backend, *r.pick(&WRAPS), gen_store_cfg(&mut r));
         c.rng_seed = r.next_u64();
         let mut actor = gen_actor(&mut r);
@@ -91,20 +95,36 @@ impl Family for C17Family {
                 4..=7 => OpKind::U2fAuthenticate {
                     challenge: r.bytes(32),
                     application: if r.chance(1, 8) { Some(r.bytes(32)) } else { None },
-                    handle: if r.chance(1, 6) { IdRef::Unknown(r.bytes_range(0, 64)) } else { IdRef::Nth(r.below(4) as u32) },
+                    handle: match r.below(12) {
+                        0 | 1 => IdRef::Unknown(r.bytes_range(0, 64)),
+                        // a handle that differs from a registered one only by a cut, an extension or one bit
+                        2 | 3 => IdRef::NearMiss(r.below(4) as u32, r.below(5) as u8),
+                        _ => IdRef::Nth(r.below(4) as u32),
+                    },
                     counter: { let x = r.next_u64() as u32; *r.pick(&[0u32, 1, 0x7fff_ffff, 0xffff_ffff, 0x0102_0304, x]) },
                     presence: { let x = r.below(256) as u8; *r.pick(&[0u8, 1, 4, 5, 0x41, 0xff, x]) },
                     p1: *r.pick(&[3u8, 7, 8]),
                     le: r.bool(),
                 },
+                8 if last_reg.is_some() => {
+                    // the same token is also a CTAP2 authenticator: an assertion with the U2F credential moves
+                    // its stored counter; later U2F authentications still sign the counter they are given
+                    let (h, a) = last_reg.clone().unwrap();
+                    let mut s = gen_ga(&mut r, &crate::model::b64url(&a));
+                    s.allow = Some(vec![IdRef::Unknown(h)]);
+                    s.up = true;
+                    s.uv = false;
+                    s.prf = None;
+                    OpKind::GetAssertion(s)
+                }
                 _ => OpKind::U2fVersion { le: false, le_val: *r.pick(&[0u16, 0, 6, 256, 0xffff]) },
             };
             let mut op = plain_op(kind);
             op.yields = gen_yields(&mut r, 4, 2);
             if faulty && r.chance(1, 3) {
                 match r.below(3) {
-                    0 => op.faults.push(Fault { seam: SeamKind::Save, nth: 0, status: r.below(256) as u8, sticky: false }),
-                    1 => op.faults.push(Fault { seam: SeamKind::Find, nth: 0, status: r.below(256) as u8, sticky: false }),
+                    0 => op.faults.push(Fault { seam: SeamKind::Save, nth: 0, status: r.below(256) as u8, sticky: false, late: false }),
+                    1 => op.faults.push(Fault { seam: SeamKind::Find, nth: 0, status: r.below(256) as u8, sticky: false, late: false }),
                     _ => op.cancel_after = Some(r.below(5) as u32),
                 }
             }
@@ -118,7 +138,7 @@ impl Family for C17Family {
         let c = ceremony_of(scn);
         let rec = run_and_measure(c, stats);
         let mut j = Judge::new("C17", scn, &rec);
-        for p in ["key_handle_registered_again", "registration_verified", "authentication_verified", "unknown_handle_rejected", "empty_key_handle", "key_handle_255", "frame_with_le", "save_error_reported", "authentication_for_other_application", "version_frame_with_nonzero_le", "registration_response_encoded_with_certificate", "authenticator_without_presence_or_verification_capability"] {
+        for p in ["key_handle_registered_again", "registration_verified", "authentication_verified", "unknown_handle_rejected", "empty_key_handle", "key_handle_255", "frame_with_le", "save_error_reported", "authentication_for_other_application", "version_frame_with_nonzero_le", "registration_response_encoded_with_certificate", "authenticator_without_presence_or_verification_capability", "near_miss_key_handle", "ctap2_assertion_with_u2f_credential"] {
             stats.declare_probe(p);
         }
         if let Some(p) = &rec.panic {
@@ -240,10 +260,15 @@ impl Family for C17Family {
                         j.fail("register-err-stored", format!("op a{}#{}: U2F registration failed but the store was written", o.actor, o.idx));
                     }
                 }
+                (OpKind::GetAssertion(_), OpResult::Ga(Ok(_))) => stats.probe("ctap2_assertion_with_u2f_credential"),
                 (OpKind::U2fAuthenticate { challenge, counter, .. }, res) => {
+                    if matches!(op_spec(c, o).kind, OpKind::U2fAuthenticate { handle: IdRef::NearMiss(..), .. }) {
+                        stats.probe("near_miss_key_handle");
+                    }
                     let handle = o.resolved.u2f_handle.clone().unwrap_or_default();
                     let app = o.resolved.u2f_application.clone().unwrap_or_default();
-                    let known = keys.get(&handle).cloned();
+                    // (the one-slot store holds the latest registration only)
+                    let known = keys.get(&handle).cloned().filter(|_| c.backend != Backend::Slot || o.before.iter().any(|s| s.id == handle));
                     let injected = rec.events_of(o.actor, o.idx).any(|e| matches!(&e.ev, Ev::FindRet { injected: true, .. }));
                     match res {
                         OpResult::U2fAuth(Ok(r)) => {
